@@ -143,13 +143,26 @@ Tns(c) == IF "tns" \in DOMAIN c THEN c.tns ELSE <<>>
 Examples(c) == Tps(c) \o Tns(c)
 IsRaw(ex) == "raw" \in DOMAIN ex
 ExDoc(ex) == ex.d + 1
-(* all example documents have an observed verdict *)
+(* The verdict validate() must agree with: the one matches() was OBSERVED to give for the class   *)
+(* (den), or - only for cases that ask for it (plan.valpin: the schedules of MC_Life, in which   *)
+(* validate() may come before any match) - the one the language layer pins.                      *)
+ValPin == "plan" \in DOMAIN cur /\ "valpin" \in DOMAIN cur.plan /\ cur.plan.valpin /\ HasOracle(cur)
+OraclePins(k, d) == ValPin /\ TextOk(SrcOf(k)) /\ Cardinality(LangVerdicts(Ast(SrcOf(k)), cur.docs[d])) = 1
+VerdictKnown(k, d) == DK(k, d) \in DOMAIN den \/ OraclePins(k, d)
+VerdictOf(k, d) == IF DK(k, d) \in DOMAIN den THEN den[DK(k, d)]
+                   ELSE CHOOSE v \in LangVerdicts(Ast(SrcOf(k)), cur.docs[d]) : TRUE
+(* all example documents have a known verdict *)
 ExamplesBound(k) == \A i \in DOMAIN Examples(cur) :
-                       IF IsRaw(Examples(cur)[i]) THEN TRUE ELSE DK(k, ExDoc(Examples(cur)[i])) \in DOMAIN den
+                       IF IsRaw(Examples(cur)[i]) THEN TRUE ELSE VerdictKnown(k, ExDoc(Examples(cur)[i]))
+(* The example lists are PUBLIC fields of a rule (rule.rs: true_positives, true_negatives): an    *)
+(* object whose lists were exchanged by its owner (action EditExamples) is `swapped`, and         *)
+(* validate() is a function of the lists the object holds NOW.                                   *)
+Swapped(k) == k + 1 \in DOMAIN objs /\ "swap" \in DOMAIN objs[k + 1] /\ objs[k + 1].swap
+IsPositive(k, j) == (j <= Len(Tps(cur))) # Swapped(k)
 Failing(k) == {i - 1 : i \in {j \in DOMAIN Examples(cur) :
                  LET ex == Examples(cur)[j] IN
                  IF IsRaw(ex) THEN FALSE
-                 ELSE IF j <= Len(Tps(cur)) THEN ~den[DK(k, ExDoc(ex))] ELSE den[DK(k, ExDoc(ex))]}}
+                 ELSE IF IsPositive(k, j) THEN ~VerdictOf(k, ExDoc(ex)) ELSE VerdictOf(k, ExDoc(ex))}}
 (* an example without a marker is the document exactly as it is (the same document may stand in  *)
 (* both lists as identical values); the error text can only be checked to name the marked ones   *)
 Marked(ex) == ~("nomark" \in DOMAIN ex /\ ex.nomark)
@@ -184,6 +197,14 @@ ReOptimise(from, k, out, same) ==
   /\ objs[from + 1].st = "ok" /\ objs[from + 1].sw # NoSw
   /\ out = "ok" /\ same
   /\ objs' = Append(objs, [sw |-> objs[from + 1].sw, st |-> "ok", src |-> objs[from + 1].src])
+  /\ UNCHANGED <<cur, phase, den, prints>>
+
+(* the owner of a rule object clones it and exchanges the clone's two example lists: a new       *)
+(* object of the same class (same tree, same verdicts) whose validate() judges the NEW lists     *)
+EditExamples(from, k, out) ==
+  /\ phase = "loaded" /\ from + 1 \in DOMAIN objs /\ k = Len(objs)
+  /\ objs[from + 1].st = "ok" /\ out = "ok"
+  /\ objs' = Append(objs, [swap |-> ~Swapped(from)] @@ objs[from + 1])
   /\ UNCHANGED <<cur, phase, den, prints>>
 
 Serialise(k, out) == /\ phase = "loaded" /\ k + 1 \in DOMAIN objs /\ out = "ok" /\ UNCHANGED rvars
